@@ -501,6 +501,11 @@ pub fn read(mem: &mut Memory, args: &[GcRef], _env: GcRef, recursion_depth: usiz
     }
     validate_args!(mem, READ.name, args, (let input: TypeLabel::Any), (let source: TypeLabel::Any), (let start_line: TypeLabel::Number), (let start_column: TypeLabel::Number));
 
+    if *start_line < 1 || *start_column < 1 {
+        let error_details = vec![("start-line", args[2].clone()), ("start-column", args[3].clone())];
+        return Err(make_error(mem, "wrong-argument", READ.name, &error_details));
+    }
+
     let sl = *start_line         as usize;
     let sc = (*start_column - 1) as usize;
 
